@@ -148,8 +148,9 @@ def get_bytes_from_code(code):
         The bytes for the code, possibly compressed.
     """
     compressed_bytes = compress.compress_code(code)
-    if len(compressed_bytes) < len(code):
-        # Use compressed.
+    if len(compressed_bytes) + 8 < len(code):
+        # Use compressed. (Its 8 header bytes count: a code that fits the
+        # cart raw must not be refused because this form is too long.)
         code_length_bytes = bytes([len(code) >> 8, len(code) & 255])
         code_bytes = b''.join(
             [b':c:\0', code_length_bytes, b'\0\0',
